@@ -125,7 +125,8 @@ def run(ctx):
         cs, cl = classify(ev, clause)
         ctx.violation(cs, cl, "%s(%r) -> %r : %s" % (ev["act"], core.untext(ev["inp"]) if ev["act"].startswith("B58Dec") else bytes(ev["inp"]).hex(), ev["res"], clause),
                       {"act": ev["act"], "inp": ev["inp"], "clause": clause})
-    core.binding_selfcheck(ctx, MODULE, [e for e in events if e["act"] in ("B58Enc", "B58DecCheck")][-400:])
+    core.binding_selfcheck(ctx, MODULE, [e for e in events if e["act"] in ("B58Enc", "B58DecCheck") and e["res"]["ok"]
+                                         and len(e["res"]["v"]) > 2 and e["id"] not in rj][-400:])
     ctx.exhaustive = not ctx.quick
     return ctx.finish(
         "model_checking",
